@@ -173,3 +173,170 @@ Theorem set_data_if_shape old ids v : zlen ids < 65536 -> zlen v < 65536 ->
 Proof.
   intros H1 H2. pose proof (zlen_nonneg ids). pose proof (zlen_nonneg v). unfold set_data_if. rewrite (Z.mod_small (zlen ids) 65536), (Z.mod_small (zlen v) 65536) by lia. reflexivity.
 Qed.
+
+(* ---------- the other fixed-header builders: the class validator accepts what setData built ---------- *)
+(* a 16-bit read inside the preserved prefix of the header sees the old header *)
+Lemma u16_prefix (P rest : list Z) off : 0 <= off -> off + 2 <= zlen P -> u16 (P ++ rest) off = u16 P off.
+Proof.
+  intros H0 H2. unfold u16. f_equal. unfold drop. rewrite skipn_app. unfold take. rewrite firstn_app.
+  replace (Z.to_nat 2 - length (skipn (Z.to_nat off) P))%nat with 0%nat; [cbn [firstn]; apply app_nil_r|].
+  rewrite skipn_length. unfold zlen in H2. lia.
+Qed.
+
+Theorem lin_builder_valid old data : zlen data < 256 ->
+  let raw := set_data 3 old data in
+  valid_lin raw = true /\ u8 raw 7 = zlen data /\ drop 8 raw = data.
+Proof.
+  intros Hn raw. pose proof (zlen_nonneg data) as Hd0.
+  assert (Hk5 : 3 = 1 \/ 3 = 2 \/ 3 = 3 \/ 3 = 7 \/ 3 = 8) by tauto.
+  destruct (set_data_stores_data 3 old data Hk5) as [Hdrop Hlen]. fold raw in Hdrop, Hlen.
+  change (hdr_size 3) with 8 in *.
+  assert (Hshape : raw = take 7 (keep_hdr 3 old) ++ [zlen data] ++ data).
+  { unfold raw. rewrite (set_data_shape 3 old data Hk5). unfold fixed_prefix, len_field. cbn [Z.eqb Pos.eqb orb].
+    rewrite Z.mod_small by lia. reflexivity. }
+  assert (Hp : zlen (take 7 (keep_hdr 3 old)) = 7) by (apply zlen_take; rewrite zlen_keep_hdr by apply hdr_size_nonneg; cbn; lia).
+  assert (U7 : u8 raw 7 = zlen data) by (rewrite Hshape; eapply u8_app_at; [now rewrite Hp | reflexivity]).
+  split; [|split; [exact U7|exact Hdrop]].
+  unfold valid_lin. rewrite Hlen, U7. apply andb_true_iff; split; apply Z.leb_le; lia.
+Qed.
+
+Theorem eth_builder_valid old data : zlen data < 65536 ->
+  Z.land (u16 (keep_hdr 8 old) 0) 59 = 0 ->
+  let raw := set_data 8 old data in
+  valid_eth raw = true /\ u16 raw 4 = zlen data /\ drop 6 raw = data.
+Proof.
+  intros Hn Hf raw. pose proof (zlen_nonneg data) as Hd0.
+  assert (Hk5 : 8 = 1 \/ 8 = 2 \/ 8 = 3 \/ 8 = 7 \/ 8 = 8) by tauto.
+  destruct (set_data_stores_data 8 old data Hk5) as [Hdrop Hlen]. fold raw in Hdrop, Hlen.
+  change (hdr_size 8) with 6 in *.
+  assert (Hshape : raw = take 4 (keep_hdr 8 old) ++ be_enc 2 (zlen data) ++ data).
+  { unfold raw. rewrite (set_data_shape 8 old data Hk5). unfold fixed_prefix, len_field. cbn [Z.eqb Pos.eqb orb].
+    rewrite Z.mod_small by lia. reflexivity. }
+  assert (Hp : zlen (take 4 (keep_hdr 8 old)) = 4) by (apply zlen_take; rewrite zlen_keep_hdr by apply hdr_size_nonneg; cbn; lia).
+  assert (U4 : u16 raw 4 = zlen data).
+  { rewrite Hshape. unfold u16. rewrite drop_app_exact by exact Hp.
+    rewrite (take_app_exact (be_enc 2 (zlen data))) by apply zlen_be_enc. apply be_dec_enc. cbn; lia. }
+  assert (U0 : u16 raw 0 = u16 (keep_hdr 8 old) 0).
+  { rewrite Hshape. rewrite u16_prefix by lia.
+    rewrite <- (take_drop_split (keep_hdr 8 old) 0 4) at 2 by lia. unfold drop at 2. cbn [Z.to_nat skipn].
+    symmetry. apply u16_prefix; lia. }
+  split; [|split; [exact U4|exact Hdrop]].
+  unfold valid_eth. rewrite Hlen, U0, Hf, U4.
+  repeat (apply andb_true_iff; split); try reflexivity; apply Z.leb_le; lia.
+Qed.
+
+Theorem analog_builder_valid old data :
+  (let dt := Z.land (u16 (keep_hdr 7 old) 0) 3 in dt = 0 \/ dt = 1) ->
+  let raw := set_data 7 old data in
+  valid_analog raw = true /\ drop 16 raw = data /\ take 16 raw = keep_hdr 7 old.
+Proof.
+  intros Hdt raw. pose proof (zlen_nonneg data) as Hd0.
+  assert (Hk5 : 7 = 1 \/ 7 = 2 \/ 7 = 3 \/ 7 = 7 \/ 7 = 8) by tauto.
+  destruct (set_data_stores_data 7 old data Hk5) as [Hdrop Hlen]. fold raw in Hdrop, Hlen.
+  change (hdr_size 7) with 16 in *.
+  assert (Hshape : raw = keep_hdr 7 old ++ data).
+  { unfold raw. rewrite (set_data_shape 7 old data Hk5). unfold fixed_prefix, len_field. cbn [Z.eqb Pos.eqb orb app].
+    change (hdr_size 7) with 16. rewrite <- (zlen_keep_hdr 7 old) at 1 by (cbn; lia). rewrite take_all. reflexivity. }
+  assert (Hz : zlen (keep_hdr 7 old) = 16) by (apply zlen_keep_hdr; cbn; lia).
+  split; [|split; [exact Hdrop|rewrite Hshape; apply take_app_exact; exact Hz]].
+  unfold valid_analog. rewrite Hlen.
+  assert (U0 : u16 raw 0 = u16 (keep_hdr 7 old) 0) by (rewrite Hshape; apply u16_prefix; lia).
+  rewrite U0. apply andb_true_iff; split; [apply Z.leb_le; lia|].
+  cbn zeta in Hdt. destruct Hdt as [-> | ->]; reflexivity.
+Qed.
+
+(* ---------- the variable-length builders: the class validator accepts what setData built ---------- *)
+Lemma u16_app_at (A rest : list Z) x i : i = zlen A -> 0 <= x < 65536 -> u16 (A ++ be_enc 2 x ++ rest) i = x.
+Proof.
+  intros -> Hx. unfold u16. rewrite drop_app_exact by reflexivity.
+  rewrite (take_app_exact (be_enc 2 x)) by apply zlen_be_enc. apply be_dec_enc. cbn; lia.
+Qed.
+Lemma u8_prefix (P rest : list Z) i : 0 <= i < zlen P -> u8 (P ++ rest) i = u8 P i.
+Proof. intros H. unfold u8. apply app_nth1. unfold zlen in H. lia. Qed.
+
+Theorem if_builder_valid old ids v : zlen ids < 65536 -> zlen v < 65536 -> u8 (keep_hdr 50 old) 29 <= 2 ->
+  valid_if (set_data_if old ids v) = true.
+Proof.
+  intros H1 H2 Hst. pose proof (zlen_nonneg ids) as Hi0. pose proof (zlen_nonneg v) as Hv0.
+  rewrite (set_data_if_shape old ids v H1 H2).
+  set (H := keep_hdr 50 old). set (c := zlen ids).
+  assert (Hz : zlen H = 36) by (apply zlen_keep_hdr; cbn; lia).
+  assert (Hm : 0 <= c mod 2 < 2) by (apply Z.mod_pos_bound; lia).
+  set (raw := H ++ be_enc 2 c ++ ids ++ zeros (c mod 2) ++ be_enc 2 (zlen v) ++ v).
+  assert (Hn : zlen raw = 36 + 2 + c + c mod 2 + 2 + zlen v).
+  { unfold raw. rewrite !zlen_app, !zlen_be_enc, zlen_zeros by lia. fold c. lia. }
+  assert (U29 : u8 raw 29 = u8 H 29) by (unfold raw; apply u8_prefix; lia).
+  assert (U36 : u16 raw 36 = c) by (unfold raw; apply u16_app_at; [lia | unfold c; lia]).
+  assert (Upos : u16 raw (38 + (c + c mod 2)) = zlen v).
+  { unfold raw.
+    replace (H ++ be_enc 2 c ++ ids ++ zeros (c mod 2) ++ be_enc 2 (zlen v) ++ v)
+      with ((H ++ be_enc 2 c ++ ids ++ zeros (c mod 2)) ++ be_enc 2 (zlen v) ++ v) by (rewrite <- !app_assoc; reflexivity).
+    apply u16_app_at; [|lia]. rewrite !zlen_app, zlen_be_enc, zlen_zeros by lia. fold c. lia. }
+  unfold valid_if. fold raw. rewrite Hn, U29, U36, Upos.
+  destruct (Z.ltb_spec (36 + 2 + c + c mod 2 + 2 + zlen v - 36) 2); [lia|].
+  destruct (Z.ltb_spec (36 + 2 + c + c mod 2 + 2 + zlen v - 38) (c + c mod 2)); [lia|].
+  destruct (Z.ltb_spec (36 + 2 + c + c mod 2 + 2 + zlen v - (38 + (c + c mod 2))) 2); [lia|].
+  cbv iota. fold H in Hst.
+  repeat (apply andb_true_iff; split); apply Z.leb_le; lia.
+Qed.
+
+(* length-prefixed blocks *)
+Definition lp_block (body : list Z) : list Z := be_enc 2 (zlen body) ++ body.
+Lemma walk_blocks : forall (bs : list (list Z)) (pre rest : list Z) n,
+  Forall (fun b => zlen b < 65536) bs ->
+  n = zlen (pre ++ concat (map lp_block bs) ++ rest) ->
+  walk (length bs) (pre ++ concat (map lp_block bs) ++ rest) n (zlen pre) = Some (zlen pre + zlen (concat (map lp_block bs))).
+Proof.
+  induction bs as [|b bs IH]; intros pre rest n HF Hn.
+  - cbn [length walk map concat]. change (zlen (@nil Z)) with 0. f_equal. lia.
+  - apply Forall_cons_iff in HF as [Hb Hbs].
+    pose proof (zlen_nonneg b) as Hb0. pose proof (zlen_nonneg rest). pose proof (zlen_nonneg (concat (map lp_block bs))).
+    set (tail := concat (map lp_block bs) ++ rest).
+    assert (E : pre ++ concat (map lp_block (b :: bs)) ++ rest = pre ++ be_enc 2 (zlen b) ++ b ++ tail).
+    { cbn [map concat]. unfold lp_block at 1. unfold tail. rewrite <- !app_assoc. reflexivity. }
+    rewrite E in Hn. rewrite E.
+    assert (Hlen : n = zlen pre + 2 + zlen b + zlen tail) by (rewrite Hn, !zlen_app, zlen_be_enc; lia).
+    assert (Ht : zlen tail = zlen (concat (map lp_block bs)) + zlen rest) by (unfold tail; apply zlen_app).
+    cbn [length walk].
+    destruct (Z.ltb_spec (n - zlen pre) 2); [lia|].
+    rewrite (u16_app_at pre (b ++ tail) (zlen b) (zlen pre) eq_refl) by lia.
+    destruct (Z.ltb_spec (n - (zlen pre + 2)) (zlen b)); [lia|].
+    replace (pre ++ be_enc 2 (zlen b) ++ b ++ tail) with ((pre ++ be_enc 2 (zlen b) ++ b) ++ concat (map lp_block bs) ++ rest)
+      by (unfold tail; rewrite <- !app_assoc; reflexivity).
+    replace (zlen pre + 2 + zlen b) with (zlen (pre ++ be_enc 2 (zlen b) ++ b)) by (rewrite !zlen_app, zlen_be_enc; lia).
+    rewrite (IH (pre ++ be_enc 2 (zlen b) ++ b) rest n Hbs).
+    + f_equal. cbn [map concat]. unfold lp_block at 2. rewrite !zlen_app, zlen_be_enc. lia.
+    + rewrite Hn. unfold tail. rewrite <- !app_assoc. reflexivity.
+Qed.
+
+Lemma cm_string_block s : zlen s + 2 < 65536 -> exists body, cm_string s = lp_block body /\ zlen body < 65536.
+Proof.
+  intros H. destruct (cm_string_shape s H) as (E & _ & Hpad & Hz).
+  set (l' := zlen s + 1 + (zlen s + 1) mod 2) in *.
+  exists (s ++ zeros (l' - zlen s)). pose proof (zlen_nonneg s).
+  assert (Hb : zlen (s ++ zeros (l' - zlen s)) = l') by (rewrite zlen_app, zlen_zeros by lia; lia).
+  split; [unfold lp_block; rewrite Hb; exact E | rewrite Hb; lia].
+Qed.
+
+Theorem cm_builder_valid old s1 s2 s3 s4 v :
+  zlen s1 + 2 < 65536 -> zlen s2 + 2 < 65536 -> zlen s3 + 2 < 65536 -> zlen s4 + 2 < 65536 -> zlen v < 65536 ->
+  valid_cm (set_data_cm old s1 s2 s3 s4 v) = true.
+Proof.
+  intros H1 H2 H3 H4 Hv. pose proof (zlen_nonneg v) as Hv0.
+  destruct (cm_string_block s1 H1) as (b1 & E1 & L1). destruct (cm_string_block s2 H2) as (b2 & E2 & L2).
+  destruct (cm_string_block s3 H3) as (b3 & E3 & L3). destruct (cm_string_block s4 H4) as (b4 & E4 & L4).
+  unfold set_data_cm. rewrite E1, E2, E3, E4, (Z.mod_small (zlen v)) by lia.
+  set (H := keep_hdr 49 old).
+  assert (Hz : zlen H = 26) by (apply zlen_keep_hdr; cbn; lia).
+  change (be_enc 2 (zlen v) ++ v) with (lp_block v).
+  assert (EQ : H ++ lp_block b1 ++ lp_block b2 ++ lp_block b3 ++ lp_block b4 ++ lp_block v
+             = H ++ concat (map lp_block [b1; b2; b3; b4; v]) ++ []).
+  { cbn [map concat]. rewrite !app_nil_r. rewrite <- ?app_assoc. reflexivity. }
+  rewrite EQ.
+  unfold valid_cm.
+  assert (HF : Forall (fun b => zlen b < 65536) [b1; b2; b3; b4; v]) by (repeat constructor; assumption).
+  pose proof (walk_blocks [b1; b2; b3; b4; v] H [] _ HF eq_refl) as W. rewrite Hz in W.
+  cbn [length] in W. rewrite W. cbn [is_some].
+  rewrite zlen_app, Hz. pose proof (zlen_nonneg (concat (map lp_block [b1; b2; b3; b4; v]) ++ [])).
+  apply andb_true_iff; split; [apply Z.leb_le; lia|reflexivity].
+Qed.
